@@ -524,6 +524,22 @@ func worker(kind string, data json.RawMessage) any {
 					Detail: "script: " + s.Src + "\n" + r.Detail, Case: caseData{Special: s.Name}})
 			}
 		}
+		for _, rc := range retCases() {
+			if c.Special != "" && c.Special != "*" && rc.Name() != c.Special {
+				continue
+			}
+			r := runRetCase(rc)
+			if r.Status == "harness-panic" {
+				out.Notes = append(out.Notes, "harness panic in "+rc.Name()+": "+r.Detail)
+				continue
+			}
+			out.Evals++
+			out.Events["results:"+r.Status]++
+			out.Distinct = append(out.Distinct, rc.Name()+" @ return")
+			if r.Status == "fail" {
+				out.Viols = append(out.Viols, Viol{Sig: rc.Name() + "@return:" + baseKind(r.Kind), Detail: r.Detail, Case: caseData{Special: rc.Name()}})
+			}
+		}
 	case len(c.Seq) > 0:
 		runSeqCase(c.Seq, out)
 	case c.T != nil:
@@ -678,7 +694,7 @@ func plan(d *mon.Driver) []T {
 // driver
 
 func drive(d *mon.Driver, replay string) int {
-	d.Rule = "a case is a Go type (constructor term over bool, sized ints/uints, floats, string, byte, time.Time, interface{}, error, a declared non-empty interface, 34 declared named types incl. time.Duration/time.Month/fs.FileMode, under named/pointer/slice/array/map[string]T/struct/interface; all terms to depth 2, sampled at depth 3, plus structs with 2-4 members) with up to 9 values (zero, inner-zero, empty, typical, min, max, three odd: NaN/Inf/tiny/non-UTF-8/>MaxInt64/located times) sent over every route (global, field-read, field-write, member-read and member-write for structs with several members, param, param-any, param(api), return, return-any, plus a hand-written method-protocol group and sequence scenarios (seq.go: a script reads and writes members of one Go struct - value struct, *struct, slice, map, nested, interface, *int - while Go code re-points, replaces, nils, swaps or changes them in place, either in a method the script calls or as host code between evaluations sharing one proxy; every enumerated (member, Go change, read path, write) combination plus seed-determined longer mixes); script values from the Go value, from a natural script value, and with out-of-range ints). distinct_nontrivial = distinct (exact type-constructor path, route) pairs that were executed and gave a verdict (converted, rejected or failed); for failures the minimal path is in the signature"
+	d.Rule = "a case is a Go type (constructor term over bool, sized ints/uints, floats, string, byte, time.Time, interface{}, error, a declared non-empty interface, 34 declared named types incl. time.Duration/time.Month/fs.FileMode, under named/pointer/slice/array/map[string]T/struct/interface; all terms to depth 2, sampled at depth 3, plus structs with 2-4 members) with up to 9 values (zero, inner-zero, empty, typical, min, max, three odd: NaN/Inf/tiny/non-UTF-8/>MaxInt64/located times) sent over every route (global, field-read, field-write, member-read and member-write for structs with several members, param, param-any, param(api), return, return-any, plus a hand-written method-protocol group, methods whose result list has error results first, in the middle or twice (retshape.go; nil and non-nil errors, compared with what the same method returns when called from Go) and sequence scenarios (seq.go: a script reads and writes members of one Go struct - value struct, *struct, slice, map, nested, interface, *int - while Go code re-points, replaces, nils, swaps or changes them in place, either in a method the script calls or as host code between evaluations sharing one proxy; every enumerated (member, Go change, read path, write) combination plus seed-determined longer mixes); script values from the Go value, from a natural script value, and with out-of-range ints). distinct_nontrivial = distinct (exact type-constructor path, route) pairs that were executed and gave a verdict (converted, rejected or failed); for failures the minimal path is in the signature"
 	d.Assume = []string{
 		"contents are compared after forgetting Go type names, integer widths, pointer-ness (a non-struct pointer is its pointee or nil) and nil-vs-empty for slices and maps; floats are compared by the bits of the float64 value (NaN, -0 included); times by instant, zone offset and location name",
 		"inside interface-typed positions the dynamic Go type cannot be preserved by any conversion (int8 comes back as int64); only the contents are compared there",
